@@ -11,10 +11,10 @@ for pid in props:
     k = c["checks"][pid]
     checks.append({
         "property_id": pid,
-        "quick_cmd": "bin/check %s --tier quick" % pid,
-        "thorough_cmd": "bin/check %s --tier thorough" % pid,
+        "quick_cmd": "python3 bin/check %s --tier quick" % pid,
+        "thorough_cmd": "python3 bin/check %s --tier thorough" % pid,
         "evidence_file": "evidence/%s.json" % pid,
-        "replay_cmd_template": "bin/check %s --replay {path}" % pid,
+        "replay_cmd_template": "python3 bin/check %s --replay {path}" % pid,
         "engine": k["sim"],
         "level_claimed": {"category": k["level"], "text": k["level_text"], "design_ref": k.get("design_ref", "DESIGN.md section 3")},
         "level_note": k["level_note"],
@@ -26,7 +26,7 @@ for pid in props:
         na.append({"property_id": pid, "reason": c["not_applicable"].get(pid, "no check registered yet (work in progress in this technique)")})
 m = {
     "version": 1,
-    "setup_cmd": "bin/check setup",
+    "setup_cmd": "python3 bin/check setup",
     "hooks": c["hooks"],
     "engines": [{"name": n, "path": "harness/" + (s.get("harness") or [n])[-1], "serves_properties": [p for p in props if p in c["checks"] and c["checks"][p]["sim"] == n], "kind_free_text": s.get("about", "")} for n, s in c["sims"].items()],
     "checks": checks,
